@@ -79,7 +79,7 @@ class TzifModel(object):
         tr = self.rz.trans
         if not tr:
             return len(self.rz.types) == 1
-        return wall + 100000 < tr[-1] + min(t[0] for t in self.rz.types)
+        return self.claim_after_last or wall + 100000 < tr[-1] + min(t[0] for t in self.rz.types)
 
 
 class PosixModel(object):
@@ -274,6 +274,28 @@ def iter_zones(ctx, tz, relativedelta, rng, tier, with_real=True, n_posix=None, 
                 yield 'tzical(one-off %s components)' % variant, 'tzical', tz.tzical(io.StringIO(txt)).get(), m, nothing
             except Exception as e:
                 ctx.violation('tzical-rejected', {'zone': 'one-off ' + variant}, '%s: %s' % (type(e).__name__, e))
+        # two set-backs in a row (daylight time ends, then the standard time itself moves west; and a standard offset
+        # lowered twice): the first pass before the second onset is not a second pass of anything
+        u1, u2, u3 = to_ts(D.datetime(2010, 3, 14, 7)), to_ts(D.datetime(2010, 11, 7, 6)), to_ts(D.datetime(2011, 1, 15, 7))
+        data2 = tzif_ref.write_tzif([u1, u2, u3, to_ts(D.datetime(2037, 1, 1))], [1, 0, 2, 2], [(-18000, False, 'EST'), (-14400, True, 'EDT'), (-21600, False, 'CST')])
+        text2 = ('BEGIN:VTIMEZONE\r\nTZID:Two/Setbacks\r\n'
+                 'BEGIN:STANDARD\r\nDTSTART:19900101T000000\r\nTZOFFSETFROM:-0500\r\nTZOFFSETTO:-0500\r\nTZNAME:EST\r\nEND:STANDARD\r\n'
+                 'BEGIN:DAYLIGHT\r\nDTSTART:20100314T020000\r\nTZOFFSETFROM:-0500\r\nTZOFFSETTO:-0400\r\nTZNAME:EDT\r\nEND:DAYLIGHT\r\n'
+                 'BEGIN:STANDARD\r\nDTSTART:20101107T020000\r\nTZOFFSETFROM:-0400\r\nTZOFFSETTO:-0500\r\nTZNAME:EST\r\nEND:STANDARD\r\n'
+                 'BEGIN:STANDARD\r\nDTSTART:20110115T020000\r\nTZOFFSETFROM:-0500\r\nTZOFFSETTO:-0600\r\nTZNAME:CST\r\nEND:STANDARD\r\nEND:VTIMEZONE\r\n')
+        v1, v2 = to_ts(D.datetime(2005, 6, 1, 0)), to_ts(D.datetime(2005, 9, 1, 1))
+        data3 = tzif_ref.write_tzif([v1, v2, to_ts(D.datetime(2037, 1, 1))], [1, 2, 2], [(7200, False, 'AAA'), (3600, False, 'BBB'), (0, False, 'CCC')])
+        text3 = ('BEGIN:VTIMEZONE\r\nTZID:Lowered/Twice\r\n'
+                 'BEGIN:STANDARD\r\nDTSTART:19900101T000000\r\nTZOFFSETFROM:+0200\r\nTZOFFSETTO:+0200\r\nTZNAME:AAA\r\nEND:STANDARD\r\n'
+                 'BEGIN:STANDARD\r\nDTSTART:20050601T020000\r\nTZOFFSETFROM:+0200\r\nTZOFFSETTO:+0100\r\nTZNAME:BBB\r\nEND:STANDARD\r\n'
+                 'BEGIN:STANDARD\r\nDTSTART:20050901T020000\r\nTZOFFSETFROM:+0100\r\nTZOFFSETTO:+0000\r\nTZNAME:CCC\r\nEND:STANDARD\r\nEND:VTIMEZONE\r\n')
+        for label, txt, dat in (('two set-backs', text2, data2), ('offset lowered twice', text3, data3)):
+            try:
+                m = TzifModel(tzif_ref.RefZone(dat))
+                m.data = dat
+                yield 'tzical(%s)' % label, 'tzical', tz.tzical(io.StringIO(txt)).get(), m, nothing
+            except Exception as e:
+                ctx.violation('tzical-rejected', {'zone': label}, '%s: %s' % (type(e).__name__, e))
         # TZNAME is optional per component: a component without it has no abbreviation (and must not inherit one)
         for nameless in ('EST', 'EDT'):
             for order in ('SD', 'DS'):
